@@ -122,6 +122,19 @@ __CPROVER_ensures(__CPROVER_return_value == 0 ==> VF_COPY_OF_MOD(VF_ID(hash), VF
  *  (6) success ==> a copy of the hash was reduced by bn_mod modulo n
  *  frame: writes sign_r, sign_s (digits, num[]) and ghost state only
  */
+/* x is the object into which the hash was copied (some logged bn_assign), reduced by bn_mod modulo n */
+#define VF_HASHCOPY_J(j, x)	VF_SL(vf_n_assign, j, vf_assign_src[j] == VF_ID(hash) && vf_assign_dst[j] == (x) &&	\
+	VF_MOD_BY((x), VF_NID(curve)) && !VF_REDUCED(x))
+#define VF_IS_HASHCOPY(x)	(VF_HASHCOPY_J(0, x) || VF_HASHCOPY_J(1, x) || VF_HASHCOPY_J(2, x) || VF_HASHCOPY_J(3, x))
+/* the m-th bn_mod_mult is  sign_s := sign_s * x */
+#define VF_S_TIMES(m, x)	VF_SL(vf_n_mmul, m, vf_mmul_bn[m] == VF_ID(sign_s) && vf_mmul_nn[m] == (x))
+#define VF_S_TIMES_ANY(x)	(VF_S_TIMES(0, x) || VF_S_TIMES(1, x) || VF_S_TIMES(2, x) || VF_S_TIMES(3, x))
+#define VF_S_TIMES_HASHCOPY(m)	VF_SL(vf_n_mmul, m, vf_mmul_bn[m] == VF_ID(sign_s) && VF_IS_HASHCOPY(vf_mmul_nn[m]))
+#define VF_S_MULTIPLIED		(VF_SL(vf_n_mmul, 0, vf_mmul_bn[0] == VF_ID(sign_s)) || VF_SL(vf_n_mmul, 1, vf_mmul_bn[1] == VF_ID(sign_s)) ||	\
+	VF_SL(vf_n_mmul, 2, vf_mmul_bn[2] == VF_ID(sign_s)) || VF_SL(vf_n_mmul, 3, vf_mmul_bn[3] == VF_ID(sign_s)))
+/* the k-th zero test is on the hash copy, and its answer decides the multiplication */
+#define VF_GOST_E_TEST(k)	VF_SL(vf_n_iz, k, VF_IS_HASHCOPY(vf_iz_bn[k]) &&		\
+	((vf_iz_r[k] != 0) ? !VF_S_MULTIPLIED : VF_S_TIMES_ANY(vf_iz_bn[k])))
 #ifdef VF_ENFORCE_ecdsa_sign
 #define VF_G_sign	VF_EC_ENFORCED_GHOST
 #else
@@ -153,6 +166,15 @@ __CPROVER_ensures(__CPROVER_return_value == 0 ==> (vf_n_mult_bp == 1 && vf_n_twi
 __CPROVER_ensures(__CPROVER_return_value == 0 ==> (vf_n_reduce == 1 && vf_reduce_bn[0] == vf_mult_bp_d &&
     vf_reduce_m[0] == VF_NID(curve) && VF_ASSIGNED_FROM(vf_mult_bp_d, VF_ID(rnd))))
 __CPROVER_ensures(__CPROVER_return_value == 0 ==> VF_COPY_OF_MOD(VF_ID(hash), VF_NID(curve)))
+/* (7) e is used through the reduced COPY, never through the caller's hash object (which the in-place
+ *     call sign_r == hash has already overwritten with r):
+ *     ECDSA: s is multiplied by the copy (which by then holds e + d r);
+ *     GOST:  the e == 0 test (bn_is_zero, replaced here by its logging contract) is applied to the
+ *            copy; e != 0 => s is multiplied by the copy, e == 0 => s is not multiplied at all (e := 1) */
+__CPROVER_ensures((__CPROVER_return_value == 0 && curve->algo == EC_CURVE_ALGO_ECDSA) ==>
+    (VF_S_TIMES_HASHCOPY(0) || VF_S_TIMES_HASHCOPY(1) || VF_S_TIMES_HASHCOPY(2) || VF_S_TIMES_HASHCOPY(3)))
+__CPROVER_ensures((__CPROVER_return_value == 0 && curve->algo == EC_CURVE_ALGO_GOST20XX) ==>
+    (VF_GOST_E_TEST(0) || VF_GOST_E_TEST(1) || VF_GOST_E_TEST(2) || VF_GOST_E_TEST(3)))
 #endif
 ;
 
